@@ -19,7 +19,7 @@ let roots_tok l = "g" ^ (if l = [] then "-" else String.concat "," (List.map roo
 let parse_op = function
   | ["A"; spf; fr; cr; id] -> RAdd (n_of_tok spf, n_of_tok fr, n_of_tok cr, bytes_of_hex id)
   | ["G"; f] -> RGet (n_of_tok f)
-  | ["R"] -> RReset
+  | ["R"] | ["RS"] | ["RL"] -> RReset   (* to the next / the same / a lower epoch number: a new, empty epoch either way *)
   | ["B"] -> RRestart
   | t -> failwith ("bad op " ^ String.concat " " t)
 
